@@ -363,3 +363,76 @@ def dump(n, ren=None, depth=0):
     if k == "repeat":
         return "[%s; _]" % d(n["e"])
     return k or "?"
+
+
+# ---------------------------------------------------------------------------------------------------------------------------
+# Layout view of a function body: iterator combinators that are loops in disguise are shown as `for` loops, so that the stream
+# operations inside their closures are seen where they execute.
+_layout_memo = {}
+
+
+def layout_root(fn):
+    h = fn.get("hir")
+    if not h:
+        return None
+    key = id(h)
+    if key not in _layout_memo:
+        import copy
+        _layout_memo[key] = _desugar(copy.deepcopy(h["body"]))
+    return _layout_memo[key]
+
+
+def _as_for(recv, clo, line):
+    ps = clo.get("params", [])
+    pat = ps[0] if len(ps) == 1 else {"k": "wild"}
+    return {"k": "for", "pat": pat, "iter": recv, "body": clo["body"], "ty": "()", "line": line, "exp": "desugar:closure"}
+
+
+def _desugar(n):
+    if isinstance(n, list):
+        return [_desugar(x) for x in n]
+    if not isinstance(n, dict):
+        return n
+    for k, v in list(n.items()):
+        if isinstance(v, (dict, list)):
+            n[k] = _desugar(v)
+    k = n.get("k")
+    # recv.try_for_each(|p| body) / recv.for_each(|p| body)  ==  for p in recv { body }
+    if k == "mcall" and n.get("m") in ("try_for_each", "for_each") and len(n.get("args", [])) == 1 and n["args"][0].get("k") == "closure":
+        return _as_for(n["recv"], n["args"][0], n.get("line"))
+    if k == "block":
+        stmts = n.get("stmts", [])
+        # let it = recv.map(|p| e);  ...  for x in it { body }   ==   for p in recv { let x = e; body }
+        for i, s in enumerate(stmts):
+            if s.get("k") == "let" and s.get("pat", {}).get("k") == "bind" and isinstance(s.get("init"), dict):
+                init = s["init"]
+                if init.get("k") == "mcall" and init.get("m") == "map" and len(init.get("args", [])) == 1 and init["args"][0].get("k") == "closure":
+                    lid = s["pat"].get("lid")
+                    uses = [(x, ps) for x, ps in walk(n) if x.get("k") == "path" and x.get("res") == "local" and x.get("lid") == lid]
+                    fors = [x for x, _ in walk(n) if x.get("k") == "for" and strip_wrappers(x["iter"]).get("k") == "path" and strip_wrappers(x["iter"]).get("lid") == lid]
+                    if len(uses) == 1 and len(fors) == 1:
+                        f = fors[0]
+                        clo = init["args"][0]
+                        ps_ = clo.get("params", [])
+                        inner = {"k": "block", "ty": f["body"].get("ty"), "line": f.get("line"),
+                                 "stmts": [{"k": "let", "pat": f["pat"], "init": clo["body"], "line": clo.get("line")}, {"k": "expr", "e": f["body"], "line": f.get("line")}]}
+                        f["pat"] = ps_[0] if len(ps_) == 1 else {"k": "wild"}
+                        f["iter"] = init["recv"]
+                        f["body"] = inner
+                        n["stmts"] = stmts[:i] + stmts[i + 1:]
+                        return _desugar_done(n)
+    return n
+
+
+def _desugar_done(n):
+    return n
+
+
+def io_closures(root, is_io):
+    """closure nodes (left after desugaring) whose body performs stream I/O according to predicate is_io(call node)"""
+    out = []
+    for n, _ in walk(root):
+        if n.get("k") == "closure":
+            if any(m.get("k") in ("call", "mcall") and is_io(m) for m, _ in walk(n["body"])):
+                out.append(n)
+    return out
